@@ -190,7 +190,132 @@ func sortedInts(v []int) []int {
 	return o
 }
 
+// runC09Frequencies: "once a client has processed the server's seed it uses
+// the server's distribution" - values AND weights.  Both sides send a few
+// thousand one-byte bursts in iat-mode 0; the sampled target of every burst is
+// recovered from its length and the empirical distribution is compared with
+// the reference's reading of the bridge seed (total variation distance).
+func runC09Frequencies(c *harness.Ctx) {
+	t := c.T
+	bias := t.Draw("bias", 2) == 1
+	setBias(bias)
+	id := genObfs4Identity(c, 0)
+	seed := make([]byte, 24)
+	mustHex(seed, id.Seed)
+	values, probs := obfs4ref.TableWithWeights(seed, 0, 1448, bias, rand.New(obfs4ref.NewDrbg(seed)))
+	// burst length for each target with a 22-byte tail (one byte of payload in one frame)
+	byLen := map[int]int{}
+	for i, tv := range values {
+		need := ((tv-22)%1448 + 1448) % 1448
+		L := 22 + need
+		if need > 0 && need <= 21 {
+			L = 22 + 1448 + 21 + need
+		}
+		byLen[L] = i
+	}
+	c.Info["part"], c.Info["bias"], c.Info["table_size"], c.Info["seed"] = "frequencies", bias, len(values), id.Seed
+	c.Feature("frequency-run")
+	sf, err := obfs4Server(id)
+	if err != nil {
+		panic(err)
+	}
+	cf, _ := transports.Get("obfs4").ClientFactory("")
+	link := c.Net.NewLink("c", "s")
+	link.AB.Policy, link.BA.Policy = simnet.ChunkAll, simnet.ChunkAll
+	const N = 3000
+	counts := [2][]int{make([]int, len(values)), make([]int, len(values))}
+	unknown := [2]int{}
+	done := [2]bool{}
+	side := func(i int, conn net.Conn, under *simnet.Conn, wait chan struct{}) {
+		c.S.Go([]string{"c", "s"}[i]+"/reader", func() {
+			buf := make([]byte, 32768)
+			first := true
+			for {
+				n, err := conn.Read(buf)
+				if n > 0 && first && wait != nil {
+					first = false
+					close(wait)
+				}
+				if err != nil {
+					return
+				}
+			}
+		})
+		if wait != nil {
+			<-wait // the client has delivered server payload: the seed is processed
+		}
+		for k := 0; k < N; k++ {
+			before := len(under.Writes)
+			if _, err := conn.Write([]byte{byte(k)}); err != nil {
+				c.Violate("C09/write-failed", "frequency run: %v", err)
+				return
+			}
+			ws := under.Writes[before:]
+			if len(ws) != 1 {
+				c.Violate("C09/iat0-burst-split", "frequency run: %d wire writes for one application write", len(ws))
+				return
+			}
+			if idx, ok := byLen[ws[0].N]; ok {
+				counts[i][idx]++
+			} else {
+				unknown[i]++
+			}
+		}
+		done[i] = true
+	}
+	c.S.Go("s/accept", func() {
+		conn, err := sf.WrapConn(link.B)
+		if err != nil {
+			c.Violate("C09/handshake-failed", "WrapConn: %v", err)
+			return
+		}
+		side(1, conn, link.B, nil)
+	})
+	c.S.Go("c/dial", func() {
+		pa, err := cf.ParseArgs(sf.Args())
+		if err != nil {
+			panic(err)
+		}
+		conn, err := cf.Dial("tcp", "x:1", dialTo(link.A), pa)
+		if err != nil {
+			c.Violate("C09/handshake-failed", "Dial: %v", err)
+			return
+		}
+		side(0, conn, link.A, make(chan struct{}))
+	})
+	c.S.MaxSteps = 2000000
+	c.S.Run(func() bool { return done[0] && done[1] }, time.Hour)
+	c.Reached, c.Nontrivial = done[0] && done[1], true
+	if c.S.Violated() || !c.Reached {
+		return
+	}
+	for i, who := range []string{"client (after the seed packet)", "server"} {
+		if unknown[i] > 0 {
+			c.Violate("C09/burst-length", "frequency run: %d of %d one-byte bursts of the %s do not end on any target of the bridge's table", unknown[i], N, who)
+			return
+		}
+		tv := 0.0
+		for k := range values {
+			d := float64(counts[i][k])/N - probs[k]
+			if d < 0 {
+				d = -d
+			}
+			tv += d / 2
+		}
+		c.Info[fmt.Sprintf("tv_distance_%d", i)] = tv
+		if tv > 0.30 {
+			c.Violate("C09/distribution-differs-from-bridge", "the %s's %d burst targets are distributed differently from the bridge's seeded distribution (bias=%v, %d values): total variation distance %.2f (sampling noise is below 0.1)", who, N, bias, len(values), tv)
+			return
+		}
+	}
+	c.Feature("frequencies-match-bridge-distribution")
+}
+
 func runC09(c *harness.Ctx) {
+	if !wovenBuild && c.T.Draw("freq", 40) == 39 {
+		runC09Frequencies(c)
+		return
+	}
 	defer maybeWoven(c)()
 	t := c.T
 	iat := t.Draw("iat", 3)
